@@ -38,5 +38,6 @@ C16 d14-skip-mode-duplicate.case f4dcbf9
 C16 d9-close-races-next.case 86608c2
 C16 d23-copy-of-parked-subscriber-threads.case 3558ad8
 C16 d23-copy-of-parked-subscriber-history.case 3558ad8
+C19 d24-extra-object-factory-throws-block-leaked.case d6608de
 LIST
 rm -rf /tmp/rv
